@@ -1,5 +1,5 @@
 import OxiVerif.Model.C17
-import OxiVerif.Model.C04
+import OxiVerif.Props.C04
 set_option linter.unusedSimpArgs false
 /-!
 # C17 — incremental updates are append-only and take effect
@@ -11,12 +11,12 @@ arbitrary bodies, every history length.  "Takes effect" is stated with C04's spe
 
 /- FULL (as the property states it, for the library's own reader too):
      ∀ history, ∀ edited field f, (library reader on the final file).value f = last value written
-   FALSE of the current code over bases whose fields live in object streams (C04-F1: the reader
-   keeps resolving the stale compressed copy) and for values outside the PDFDocEncoding identity
-   range (the form filler stores /V as raw UTF-8, which is not a PDF text string).  Both are
-   demonstrated on the real code by the correspondence run (known findings C17-F1, C17-F2);
-   what is proved here is the part that holds: the bytes and the spec-level meaning of the
-   appended revision. -/
+   The cross-reference half of it holds since /repo f090b1d9 (C04-F1 repaired) for every base,
+   also those that keep their fields in object streams: `C17_edit_visible_to_library_reader`,
+   `C17_history_visible_to_library_reader` below (the old merge is refuted by
+   `C17_witness_edit_invisible_old`).  The VALUE half is still false for values outside the
+   PDFDocEncoding identity range (the form filler stores /V as raw UTF-8, which is not a PDF text
+   string): known finding C17-F2, demonstrated on the real code by the correspondence run. -/
 -/
 namespace OxiVerif.C17
 open OxiVerif
@@ -273,6 +273,75 @@ theorem C17_history_takes_effect (chain : List C04.Sect) (edits : List (List Cha
 
 example : C04.newest (applyEdits [[(5, C04.Ent.inuse 100 0), (4, C04.Ent.inuse 50 0)]]
     [[⟨5, 0, 900⟩], [⟨4, 0, 1000⟩], [⟨5, 0, 1100⟩]]) 5 = some (C04.Ent.inuse 1100 0) := by decide
+
+
+/-! ### the edit takes effect for the LIBRARY's reader (C04's model of its merged table) -/
+
+theorem listedOnce_sectionOf (cs : List Changed) (hd : (cs.map (·.num)).Nodup) (n : Nat) :
+    C04.ListedOnce (sectionOf cs) n := by
+  apply C04.listedOnce_of_nodup
+  simpa [sectionOf, List.map_map, Function.comp_def] using hd
+
+/-- **Takes effect for the library's reader, one edit.**  `C04.merge` is the table
+    `parse_with_incremental_updates_options` builds and `.lookup` what `load_object_from_disk`
+    dispatches on.  Over ANY earlier history of valid sections — classic or stream, the rewritten
+    object stored in an object stream by the base or not — a rewritten number resolves to the new
+    object's offset and every other number resolves exactly as before. -/
+theorem C17_edit_visible_to_library_reader (cs : List Changed) (chain : List C04.Sect) (n : Nat)
+    (hd : (cs.map (·.num)).Nodup) (hv : ∀ s ∈ chain, C04.ListedOnce s n) :
+    (∀ c ∈ cs, c.num = n →
+      (C04.merge (sectionOf cs :: chain)).lookup n = some (C04.Ent.inuse c.off c.gen)) ∧
+    ((∀ c ∈ cs, c.num ≠ n) →
+      (C04.merge (sectionOf cs :: chain)).lookup n = (C04.merge chain).lookup n) := by
+  have hall : ∀ s ∈ sectionOf cs :: chain, C04.ListedOnce s n := by
+    intro s hs
+    rcases List.mem_cons.1 hs with rfl | h
+    · exact listedOnce_sectionOf cs hd n
+    · exact hv s h
+  have h := C17_edit_takes_effect cs chain n hd
+  rw [C04.C04_newest_wins _ _ hall, C04.C04_newest_wins _ _ hv]
+  exact h
+
+-- the base keeps field object 5 in object stream 7; the edit rewrites 5 as a plain object
+example : (C04.merge (sectionOf [⟨5, 0, 900⟩] ::
+    [[(5, C04.Ent.comp 7 0), (7, C04.Ent.inuse 1 0), (4, C04.Ent.inuse 50 0)]])).lookup 5
+    = some (C04.Ent.inuse 900 0) := by decide
+
+/-- the same base and edit under the merge BEFORE the repair: the reader kept dispatching to the
+    compressed copy, the edit was invisible (the regression C17-F1) -/
+theorem C17_witness_edit_invisible_old :
+    (C04.mergeOld (sectionOf [⟨5, 0, 900⟩] ::
+      [[(5, C04.Ent.comp 7 0), (7, C04.Ent.inuse 1 0), (4, C04.Ent.inuse 50 0)]])).lookup 5
+      = some (C04.Ent.comp 7 0) := by decide
+
+theorem applyEdits_valid (chain : List C04.Sect) (edits : List (List Changed)) (n : Nat)
+    (hv : ∀ s ∈ chain, C04.ListedOnce s n) (hd : ∀ e ∈ edits, (e.map (·.num)).Nodup) :
+    ∀ s ∈ applyEdits chain edits, C04.ListedOnce s n := by
+  induction edits generalizing chain with
+  | nil => simpa [applyEdits] using hv
+  | cons e rest ih =>
+    simp only [applyEdits]
+    apply ih
+    · intro s hs
+      rcases List.mem_cons.1 hs with rfl | h
+      · exact listedOnce_sectionOf e (hd e (List.mem_cons_self ..)) n
+      · exact hv s h
+    · exact fun e' he' => hd e' (List.mem_cons_of_mem _ he')
+
+/-- **Takes effect for the library's reader, any history.**  After K edits (K arbitrary) over any
+    base history of valid sections, the library's reader dispatches a number to the entry written
+    by the LAST edit that rewrote it, and a number no edit rewrote exactly as in the base. -/
+theorem C17_history_visible_to_library_reader (chain : List C04.Sect) (edits : List (List Changed))
+    (n : Nat) (hv : ∀ s ∈ chain, C04.ListedOnce s n) (hd : ∀ e ∈ edits, (e.map (·.num)).Nodup) :
+    (C04.merge (applyEdits chain edits)).lookup n =
+      match lastEdit n edits with
+      | some e => some e
+      | none => (C04.merge chain).lookup n := by
+  rw [C04.C04_newest_wins _ _ (applyEdits_valid chain edits n hv hd), C04.C04_newest_wins _ _ hv]
+  exact C17_history_takes_effect chain edits n
+
+example : (C04.merge (applyEdits [[(5, C04.Ent.comp 7 0), (7, C04.Ent.inuse 1 0), (4, C04.Ent.comp 7 1)]]
+    [[⟨5, 0, 900⟩], [⟨4, 0, 1000⟩], [⟨5, 0, 1100⟩]])).lookup 5 = some (C04.Ent.inuse 1100 0) := by decide
 
 /-- `/Size` stays above every number the section lists when fresh numbers are allocated from
     the previous `/Size` upwards without gaps (what `allocate_id` / `next_id` do). -/
